@@ -44,7 +44,8 @@ func vpH_C07_router() {
 		case 0: // REQ (replaces a subscription of the same id)
 			sub := vpSym1("sub")
 			var f *ReqFilter
-			switch vpChoice("filter", 4) {
+			switch vpChoice("filter", 5) {
+			case 4: // two filters (built below)
 			case 3: // a limit bounds the stored events of a REQ, never the live ones
 				l := vpInt64("limit")
 				vpAssume(l >= 0)
@@ -58,9 +59,25 @@ func vpH_C07_router() {
 				f = &ReqFilter{Since: &s, Until: &u}
 			}
 			msg := &ClientReqMsg{SubscriptionID: sub, ReqFilters: []*ReqFilter{f}}
+			if f == nil { // a filter list: a match of any member counts
+				msg.ReqFilters = []*ReqFilter{{Kinds: []int64{vpInt64("fkind")}}, {Authors: []string{vpSym1("fauthor")}}}
+			}
+			queued := len(chans[c])
 			out := router.recv(ctx, reqIDs[c], msg, chans[c])
 			eose, isE := out.(*ServerEOSEMsg)
-			vpAssert(isE && eose.SubscriptionID == sub, "C07.req-answered-by-eose")
+			answered := isE && eose.SubscriptionID == sub
+			if !isE && isNilServerMsg(out) && len(chans[c]) == queued+1 {
+				// the statement does not say by which way the EOSE travels: one queued on the
+				// connection's own channel answers the REQ as well
+				for j := 0; j <= queued; j++ {
+					m := <-chans[c]
+					chans[c] <- m
+					if q, ok := m.(*ServerEOSEMsg); ok && j == queued && q.SubscriptionID == sub {
+						answered = true
+					}
+				}
+			}
+			vpAssert(answered, "C07.req-answered-by-eose")
 			if inner, ok := router.subs.subs.TryGet(reqIDs[c]); ok && !guarded[c] {
 				guarded[c] = true
 				vpGuardedBy(inner, &inner.mu, "subscriber")
